@@ -142,12 +142,12 @@ impl Server {
 		let port = std::net::TcpListener::bind("127.0.0.1:0").ok()?.local_addr().ok()?.port();
 		let mut a: Vec<String> = vec!["serve".into(), "-i".into(), "127.0.0.1".into(), "-p".into(), port.to_string()];
 		a.extend_from_slice(args);
-		let errlog = std::env::temp_dir().join(format!("vharness_server_{}.log", std::process::id()));
+		let errlog = std::path::Path::new("/dev/shm").join(format!("vharness_server_{}.log", std::process::id()));
 		let stderr = std::fs::File::create(&errlog).map(Stdio::from).unwrap_or(Stdio::null());
 		let child = Command::new(bin).args(&a).stdout(Stdio::null()).stderr(stderr).spawn().ok()?;
 		let mut s = Server { child, port };
 		let t0 = Instant::now();
-		while t0.elapsed() < Duration::from_secs(20) {
+		while t0.elapsed() < Duration::from_secs(60) {
 			if TcpStream::connect(format!("127.0.0.1:{port}")).is_ok() {
 				let _ = std::fs::remove_file(&errlog);
 				return Some(s);
@@ -159,8 +159,11 @@ impl Server {
 			}
 			std::thread::sleep(Duration::from_millis(50));
 		}
+		// still running but not listening after a minute: a matter of this machine's load, not of any property --
+		// a tool error (exit code 5), never a verdict
 		let _ = s.child.kill();
-		None
+		eprintln!("the server process did not start listening within 60 s");
+		std::process::exit(5);
 	}
 }
 impl Drop for Server {
